@@ -1259,8 +1259,19 @@ def judge_paths_walk(ctx, g, edits, q, check="walk-paths"):
         if fs & mustnot:
             m = sorted(fs & mustnot)
             bad.append((f"C13:walk-paths:extra-commit:{merge(m)}", f"paths={list(filt)}: yielded {m} whose files below the paths equal those of a parent"))
-        if not bad and full != [x for x in plain if x in fs]:
-            bad.append(("C13:walk-paths:order-differs-from-plain-walk", f"with paths {full}, without {plain}"))
+        # order: what the statement promises (no parent before its child in topological order), and - only where the
+        # clock leaves no choice (all commit times distinct, parents older) - the order of the unrestricted walk.  With
+        # tied times the two walks may break the tie differently: commits that link two shown commits are dropped before
+        # the topological reordering sees them (first version demanded the same order always: over-reach, corrected)
+        pos = {x: i for i, x in enumerate(full)}
+        if not bad and q.get("order") == "topo":
+            for x in full:
+                pb = [p for p in g.parents[x] if p in pos and pos[p] < pos[x]]
+                if pb:
+                    bad.append(("C13:walk-paths:topo-parent-before-child", f"order=topo with paths yielded parent {pb[0]} before its child {x}: {full}"))
+                    break
+        if not bad and g.distinct_times and g.monotone and full != [x for x in plain if x in fs]:
+            bad.append(("C13:walk-paths:order-differs-from-plain-walk", f"with paths {full}, without {plain} (all commit times distinct)"))
         if not bad and q.get("max_entries") is not None and got != full[: q["max_entries"]]:
             bad.append(("C13:walk-paths:max-entries-not-a-prefix", f"max_entries={q['max_entries']}: {got}, unlimited {full}"))
     for bucket, msg in bad:
